@@ -940,10 +940,17 @@ class Qcow2Chain(ChainSuite):
                 ncl_bytes = rng.randint(70, 150) * 512
             size = ncl_bytes - rng.pick([0, 0, 77])
             layers = []
+            # the bottom image may be shorter than the overlays on top of it (an overlay created larger, or resized, over an
+            # older base): beyond the end of the base the chain reads as zeros, overlay clusters there stay in place
+            short_base = (not multi) and size > 3 * 512 and rng.chance(0.35)
+            full_size = size
             for d in range(depth):
                 ext = extcase and (d == 0 or rng.chance(0.4))      # the top layer of an ext case is always extended
                 cb = 14 if ext else (rng.pick([11, 12]) if extcase else (9 if multi else rng.pick([9, 9, 10])))
                 cs = 1 << cb
+                size = full_size
+                if short_base and d == depth - 1:
+                    size = rng.randint(512, full_size - 512) - rng.pick([0, 0, 77, 300])
                 ncl = (size + cs - 1) // cs
                 hosts = list(range(ncl))
                 rng.shuffle(hosts)
@@ -985,6 +992,7 @@ class Qcow2Chain(ChainSuite):
                                "l1_size": l1_size, "l1_offset": cs, "rc_offset": 3 * cs, "l2tabs": l2tabs, "clusters": cl,
                                "backing": ({"size": size} if top else None), "backing_name_off": 200, "size": size,
                                "salt": rng.randrange(1 << 30), "file_size": (8 + ncl + 1) * cs, "data_size": 0})
+            size = full_size
             reqs = []
             for _ in range(5):
                 a = rng.randrange(0, size)
@@ -1012,8 +1020,11 @@ class Qcow2Chain(ChainSuite):
         terms = []
         for l in case["layers"]:
             im = c01.coq_image(l, c01.layout(l))
-            terms.append(f"(let im := {im} in {{| l_read := fun off n => qcow2_read im (S (Z.to_nat n)) off n; "
-                         f"l_src := guest_src im |}})")
+            t = (f"(let im := {im} in {{| l_read := fun off n => qcow2_read im (S (Z.to_nat n)) off n; "
+                 f"l_src := guest_src im |}})")
+            if l["size"] < case["size"]:
+                t = f"(clip_layer {Z(l['size'])} {t})"           # a base shorter than the chain: zero-extended view
+            terms.append(t)
         return terms
 
     def granule(self, case):
